@@ -321,25 +321,41 @@ def _run(case, ctx):
         if label != 'formula':
             c0, i0 = R.expand(tree)
             n0 = len(devs)
-            compare(T, c0, i0, natural, *observe(sub), devs, mon)
+            try:
+                ob = observe(sub)
+            except Exception as e:
+                devs.append(dev('reading-tables-raises:' + type(e).__name__, dict(exc=repr(e)[:300], formula=tx)))
+                return None
+            compare(T, c0, i0, natural, *ob, devs, mon)
             if len(devs) > n0:
                 return None
         return sub
+
+    def result(make, what):
+        """run an operation of the code under test and read its tables; an exception is a deviation, not a harness error"""
+        try:
+            return observe(make())
+        except Exception as e:
+            devs.append(dev('%s-raises:%s' % (what, type(e).__name__), dict(exc=repr(e)[:300], formula=text)))
+            return None
 
     sample = dict(kind=t, formula=text, natural=natural, expected_counts=counts)
     fp = '%s|%s|%s' % (t, text, natural)
     if t == 'formula':
         s = build(f, 'formula')
         if s is not None:
-            comps, rows, srow = observe(s)
-            compare(T, counts, idents, natural, comps, rows, srow, devs, mon)
-            sample.update(observed_counts=comps, observed_sum=srow, expected_sum=R.totals(T, counts, idents, natural))
+            res = result(lambda: s, 'reading-tables')
+            if res:
+                comps, rows, srow = res
+                compare(T, counts, idents, natural, comps, rows, srow, devs, mon)
+                sample.update(observed_counts=comps, observed_sum=srow, expected_sum=R.totals(T, counts, idents, natural))
     elif t == 'dict':
         classes.add('dict-form')
-        s = M.Substance(dict(counts), natural=natural)
-        comps, rows, srow = observe(s)
-        compare(T, counts, idents, natural, comps, rows, srow, devs, mon, 'dict:')
-        sample.update(observed_counts=comps, observed_sum=srow, expected_sum=R.totals(T, counts, idents, natural))
+        res = result(lambda: M.Substance(dict(counts), natural=natural), 'dict-construction')
+        if res:
+            comps, rows, srow = res
+            compare(T, counts, idents, natural, comps, rows, srow, devs, mon, 'dict:')
+            sample.update(observed_counts=comps, observed_sum=srow, expected_sum=R.totals(T, counts, idents, natural))
         trivial = False
     elif t == 'add':
         classes.add('substance+substance')
@@ -350,14 +366,15 @@ def _run(case, ctx):
         a, b = build(f, 'left'), build(g, 'right')
         fp += '|' + R.render(g)
         if a is not None and b is not None:
-            s = a + b
             exp = dict(counts)
             for k, v in c2.items():
                 exp[k] = exp.get(k, 0) + v
             ids = dict(idents); ids.update(i2)
-            comps, rows, srow = observe(s)
-            compare(T, exp, ids, natural, comps, rows, srow, devs, mon, 'add:')
-            sample.update(right=R.render(g), expected_counts=exp, observed_counts=comps)
+            res = result(lambda: a + b, 'substance+substance')
+            if res:
+                comps, rows, srow = res
+                compare(T, exp, ids, natural, comps, rows, srow, devs, mon, 'add:')
+                sample.update(right=R.render(g), expected_counts=exp, observed_counts=comps)
         trivial = False
     elif t == 'addel':
         classes.add('substance+element')
@@ -371,23 +388,25 @@ def _run(case, ctx):
         a = build(f, 'left')
         fp += '|%s|%d' % (et, case['n'])
         if a is not None:
-            s = a + M.Element(et, case['n'], natural=natural)
             exp = dict(counts)
             exp[et] = exp.get(et, 0) + case['n']
-            comps, rows, srow = observe(s)
-            compare(T, exp, ids, natural, comps, rows, srow, devs, mon, 'addel:')
-            sample.update(element=et, n=case['n'], expected_counts=exp, observed_counts=comps)
+            res = result(lambda: a + M.Element(et, case['n'], natural=natural), 'substance+element')
+            if res:
+                comps, rows, srow = res
+                compare(T, exp, ids, natural, comps, rows, srow, devs, mon, 'addel:')
+                sample.update(element=et, n=case['n'], expected_counts=exp, observed_counts=comps)
         trivial = False
     elif t == 'mul':
         classes.add('substance*number')
         a = build(f, 'operand')
         fp += '|%r' % case['k']
         if a is not None:
-            s = a * case['k']
             exp = {k: v * case['k'] for k, v in counts.items()}
-            comps, rows, srow = observe(s)
-            compare(T, exp, idents, natural, comps, rows, srow, devs, mon, 'mul:')
-            sample.update(k=case['k'], expected_counts=exp, observed_counts=comps)
+            res = result(lambda: a * case['k'], 'substance*number')
+            if res:
+                comps, rows, srow = res
+                compare(T, exp, idents, natural, comps, rows, srow, devs, mon, 'mul:')
+                sample.update(k=case['k'], expected_counts=exp, observed_counts=comps)
         trivial = False
     if devs:
         sample['deviations'] = [d['mech'] for d in devs]
